@@ -791,3 +791,9 @@ fire('eff1-inplace-on-global-alias', ['C18', 'C09', 'C10'], ['EFF-1'], 'the f-st
 silent('s-eff1-copy-of-global', ['C18', 'C09', 'C10'], 'the f-string prefix list becomes a module constant; the helper extends a copy of it',
        (TOK, "def _all_string_prefixes(*, include_fstring=False, only_fstring=False):", "_F_PREFIXES = ['f', 'fr']\n_EXTRA_PREFIXES = []\n\n\ndef _all_string_prefixes(*, include_fstring=False, only_fstring=False):"),
        (TOK, "        f = ['f', 'fr']\n", "        f = list(_F_PREFIXES)\n        f += _EXTRA_PREFIXES\n"))
+
+# round 13: exponentially ambiguous pattern (rt13-C02)
+fire('rx14-digit-run-ambiguous', ['C02', 'C09'], ['RX-14'], 'the decimal digit part takes runs of digits inside the repetition: (?:_?[0-9]+)* - same language, 2^n runs',
+     (TOK, "    Decnumber = r'(?:0(?:_?0)*|[1-9](?:_?[0-9])*)'", "    Decnumber = r'(?:0(?:_?0)*|[1-9](?:_?[0-9]+)*)'"))
+silent('s-rx14-digit-run-unambiguous', ['C02', 'C09', 'C10'], 'the decimal digit part written with an explicit separator: [0-9]*(?:_[0-9]+)* - same language, unambiguous',
+       (TOK, "    Decnumber = r'(?:0(?:_?0)*|[1-9](?:_?[0-9])*)'", "    Decnumber = r'(?:0(?:_?0)*|[1-9][0-9]*(?:_[0-9]+)*)'"))
